@@ -355,7 +355,11 @@ def do_check(pid, tier, seed, args, workdir, t_start):
         exit_code = 1
     elif inconclusive:
         exit_code = 2
-    for (h, k, info) in inconclusive[:40]:
+    seen_inc = set()
+    for (h, k, info) in inconclusive:
+        if (h, k, info[:120]) in seen_inc or len(seen_inc) >= 25:
+            continue
+        seen_inc.add((h, k, info[:120]))
         lines.append('INCONCLUSIVE property=%s obligation=%s reason=%s %s' % (pid, h, k, info.replace('\n', ' | ')[:700]))
     wall = time.time() - t_start
     if not args.no_evidence:
